@@ -144,19 +144,6 @@ def readInteger (cfg : LexCfg) (delims : Option (List Byte)) (s : IStream) (err 
     (collected digits in order, rest) -/
 def realDigits : List Byte → List Byte × List Byte := takeDigits
 
-/-- optional sign: (collected, rest) -/
-def optSign (r : List Byte) : List Byte × List Byte :=
-  match r with
-  | 43 :: t => ([43], t)
-  | 45 :: t => ([45], t)
-  | _ => ([], r)
-
-/-- optional decimal point: (collected, rest) -/
-def optDot (r : List Byte) : List Byte × List Byte :=
-  match r with
-  | 46 :: t => ([46], t)
-  | _ => ([], r)
-
 /-- optional exponent part `[eE] sign? digits*`: (collected, rest, lower-case letter used, no digit after the letter) -/
 def expPart (r : List Byte) : List Byte × List Byte × Bool × Bool :=
   match r with
